@@ -28,11 +28,11 @@ export -f run_one
  done < /verif/selftest/mutants/EXPECT
  for d in /verif/seeded/*/; do
    [ -f "$d/patch.diff" ] || continue
-   n=$(basename "$d"); echo "$n" | grep -q "$F" || continue
-   rule=$(python3 -c "import json,sys; print(json.load(open('$d/meta.json')).get('expected_rule','.'))" 2>/dev/null || echo .)
-   echo "seeded-$n $d/patch.diff $rule $OUT"
+   n=$(basename "$d"); echo "seeded-$n" | grep -q "$F" || continue
+   rule=$(python3 -c "import json,sys; print(json.load(open('${d}meta.json')).get('expected_rule') or '.')" 2>/dev/null || echo .)
+   echo "seeded-$n ${d}patch.diff ${rule:-.} $OUT"
  done
-} | xargs -P 8 -L 1 bash -c 'run_one $0 $1 $2 $3' | sort
+} | xargs -r -P 8 -L 1 bash -c 'run_one $0 $1 $2 $3' | sort
 # control: the unchanged tree must be silent
 /verif/bin/goyang-verif -all > "$OUT/control.log" 2>&1; echo "CONTROL exit=$? $(tail -1 "$OUT/control.log")"
 rm -rf "$OUT"
